@@ -2,6 +2,8 @@
 
 package rux
 
+import "sync"
+
 // Read-only accessors used by the verification harness in /verif.
 // Compiled only with `-tags verif`; nothing here changes behaviour.
 
@@ -28,3 +30,6 @@ func (c *Context) VerifCursor() int { return int(c.index) }
 
 // VerifChainLen returns the length of the handler chain installed on the context.
 func (c *Context) VerifChainLen() int { return len(c.handlers) }
+
+// VerifPool returns the router's context pool (the instrumented build swaps its type for a deterministic one).
+func (r *Router) VerifPool() *sync.Pool { return &r.ctxPool }
